@@ -21,6 +21,16 @@ type DepthCase struct {
 	Wrap  int    `json:"wrap"`  // the value is wrapped in this many arrays of one element
 	Cut   int    `json:"cut"`   // > 0: only the first Cut bytes are scanned (a truncated document)
 	Raw   []byte `json:"raw"`   // arbitrary bytes scanned as they are
+	// Announce != nil: the document is Wrap arrays around one array / map / string / binary header that
+	// announces N values or bytes, followed by Fill one-byte values (nil). With fewer bytes than
+	// announced the scan must refuse the document (D49); with exactly as many it is a complete document
+	Announce *AnnounceCase `json:"announce,omitempty"`
+}
+
+type AnnounceCase struct {
+	Family string `json:"family"`
+	N      uint64 `json:"n"`
+	Fill   int    `json:"fill"`
 }
 
 func genTreeValue(t *rapid.T, label string, depth int) any {
@@ -87,6 +97,40 @@ func genDepthCase(t *rapid.T) DepthCase {
 	if rapid.IntRange(0, 3).Draw(t, "raw") == 0 {
 		c.Raw = rapid.SliceOfN(rapid.Byte(), 0, 40).Draw(t, "rawBytes")
 	}
+	if rapid.IntRange(0, 3).Draw(t, "announce") == 0 {
+		a := &AnnounceCase{Family: rapid.SampledFrom([]string{"fixarray", "fixmap", "fixstr", "array16", "array32", "map16", "map32", "str8", "str16", "str32", "bin8", "bin16", "bin32"}).Draw(t, "family")}
+		a.N = rapid.SampledFrom([]uint64{0, 1, 2, 7, 15, 16, 31, 32, 255, 256, 300, 65535, 65536, 1 << 20, 1 << 31, 1<<32 - 1}).Draw(t, "n")
+		switch a.Family {
+		case "fixarray", "fixmap":
+			a.N &= 15
+		case "fixstr":
+			a.N &= 31
+		case "str8", "bin8":
+			a.N &= 255
+		case "array16", "map16", "str16", "bin16":
+			a.N &= 65535
+		}
+		need := a.N
+		if a.Family == "fixmap" || a.Family == "map16" || a.Family == "map32" {
+			need = 2 * a.N
+		}
+		// around the boundary "exactly as many bytes as announced", and far below it
+		switch k := rapid.IntRange(0, 4).Draw(t, "fillKind"); {
+		case need > 1<<17 || k == 0:
+			a.Fill = rapid.IntRange(0, 40).Draw(t, "fill")
+		case k == 1 && need > 0:
+			a.Fill = int(need) - 1
+		case k == 2 && need > 1:
+			a.Fill = int(need) / 2
+		default:
+			a.Fill = int(need)
+		}
+		if uint64(a.Fill) > need {
+			a.Fill = int(need)
+		}
+		c.Announce = a
+		c.Wrap = rapid.SampledFrom([]int{0, 1, 5, 9999}).Draw(t, "announceWrap")
+	}
 	return c
 }
 
@@ -98,6 +142,38 @@ func execDepthCase(c DepthCase) (res vt.Result) {
 	}()
 	if len(c.Raw) > 0 {
 		utils.MsgpackDepth(c.Raw) // must not panic; any verdict
+	}
+	if a := c.Announce; a != nil {
+		doc := append(bytesRepeat(0x91, c.Wrap), bombHeader(a.Family, a.N)...)
+		doc = append(doc, bytesRepeat(0xc0, a.Fill)...)
+		need := a.N
+		container := false
+		switch a.Family {
+		case "fixmap", "map16", "map32":
+			need, container = 2*a.N, true
+		case "fixarray", "array16", "array32":
+			container = true
+		}
+		d, err := utils.MsgpackDepth(doc)
+		if uint64(a.Fill) < need {
+			// small announcements are harmless (the decoder meets the end of the body first); what the
+			// scan owes is a refusal of everything that would make the decoder allocate beyond the body
+			if err == nil && need > 4096 {
+				return vt.Result{Err: fmt.Errorf("a %s header that announces %d (%d bytes follow) was accepted by the scan (depth %d): the decoder allocates what the header announces", a.Family, a.N, a.Fill, d)}
+			}
+			return vt.Result{NonTrivial: true}
+		}
+		want := c.Wrap
+		if container && a.N > 0 {
+			want++
+		}
+		if err != nil {
+			return vt.Result{Err: fmt.Errorf("a complete document (%s header announcing %d, %d bytes follow, %d levels) was refused: %v", a.Family, a.N, a.Fill, want, err)}
+		}
+		if d != want {
+			return vt.Result{Err: fmt.Errorf("the scan reports %d levels for a %s of %d inside %d arrays", d, a.Family, a.N, c.Wrap)}
+		}
+		return vt.Result{NonTrivial: true}
 	}
 	// whole numbers as integers of the smallest width, some strings as binary: every family of encodings
 	var buf bytes.Buffer
